@@ -174,7 +174,7 @@ func concRun(enc *json.Encoder, seed int64, nmut, nreaders, yieldPct int, st *st
 					s := lg.next()
 					lg.add(s, Ev{"e": "MStart", "c": u.NameID(n), "op": "del", "k": u.KeyID(k, false), "v": 0, "p": 0, "kl": 0, "vl": 0})
 					res, err := c.Delete(k)
-					lg.add(lg.next(), Ev{"e": "MEnd", "err": err != nil, "res": res})
+					lg.add(lg.next(), Ev{"e": "MEnd", "err": err != nil, "res": res, "msg": fmt.Sprint(err)})
 				}
 				continue
 			}
@@ -186,12 +186,12 @@ func concRun(enc *json.Encoder, seed int64, nmut, nreaders, yieldPct int, st *st
 				lg.add(s, Ev{"e": "MStart", "c": u.NameID(n), "op": "set", "k": u.KeyID(key, false), "v": u.ValID(val, true),
 					"p": int(prio), "kl": len(key), "vl": len(val)})
 				err := c.SetItem(&gkvlite.Item{Key: key, Val: val, Priority: prio})
-				lg.add(lg.next(), Ev{"e": "MEnd", "err": err != nil, "res": false})
+				lg.add(lg.next(), Ev{"e": "MEnd", "err": err != nil, "res": false, "msg": fmt.Sprint(err)})
 			case r < 9:
 				s := lg.next()
 				lg.add(s, Ev{"e": "MStart", "c": u.NameID(n), "op": "del", "k": u.KeyID(key, false), "v": 0, "p": 0, "kl": 0, "vl": 0})
 				res, err := c.Delete(key)
-				lg.add(lg.next(), Ev{"e": "MEnd", "err": err != nil, "res": res})
+				lg.add(lg.next(), Ev{"e": "MEnd", "err": err != nil, "res": res, "msg": fmt.Sprint(err)})
 			default:
 				c.EvictSomeItems() // only the mutator may evict
 			}
